@@ -14,7 +14,7 @@ import (
 )
 
 // evidence alphabet
-var c11Tokens = []string{"assertTrue", "assertEquals-ab", "assertEquals-aa", "println", "printf", "sleep", "helper-asserts", "helper-plain", "verify", "new", "plain-aa", "print"}
+var c11Tokens = []string{"assertTrue", "assertEquals-ab", "assertEquals-aa", "println", "printf", "sleep", "helper-asserts", "helper-plain", "verify", "new", "plain-aa", "print", "thread-yield", "own-sleep", "err-println"}
 
 type c11Want struct {
 	Type     string
@@ -62,6 +62,12 @@ func c11Body(tokens []string) ([]jg.Stmt, map[int]*jg.Site) {
 			body = append(body, jg.St(jg.T("new Foo();")))
 		case "plain-aa":
 			body = append(body, jg.St(jg.T("compute(a, a);")))
+		case "thread-yield": // a call on Thread that is not sleep: plain call, no evidence
+			body = append(body, jg.St(jg.T("Thread.yield();")))
+		case "own-sleep": // a method named sleep on another receiver: plain call, no evidence
+			body = append(body, jg.St(jg.T("sleep(5);")))
+		case "err-println": // System.err is not System.out
+			body = append(body, jg.St(jg.T("System.err.println(\"e\");")))
 		}
 	}
 	return body, sites
@@ -82,6 +88,7 @@ func c11Class(name string, methods []*c11Method) *jg.Class {
 		jg.Member{Method: &jg.Method{Mods: []string{"private"}, Ret: "void", Name: "helperAsserts", Body: []jg.Stmt{jg.St(jg.T("assertNotNull(mock);"))}}},
 		jg.Member{Method: &jg.Method{Mods: []string{"private"}, Ret: "void", Name: "helperPlain", Body: []jg.Stmt{jg.St(jg.T("prepare();"))}}},
 		jg.Member{Method: &jg.Method{Mods: []string{"private"}, Ret: "void", Name: "prepare", Body: []jg.Stmt{jg.St(jg.T("flag = true;"))}}},
+		jg.Member{Method: &jg.Method{Mods: []string{"private"}, Ret: "void", Name: "sleep", Params: []jg.Param{{Type: "int", Name: "ms"}}, Body: []jg.Stmt{jg.St(jg.T("flag = ms > 0;"))}}},
 		jg.Member{Method: &jg.Method{Mods: []string{"private"}, Ret: "void", Name: "compute", Params: []jg.Param{{Type: "int", Name: "x"}, {Type: "int", Name: "y"}}, Body: []jg.Stmt{jg.St(jg.T("flag = x == y;"))}}})
 	return cls
 }
@@ -353,7 +360,7 @@ func init() {
 	engine.Register(&engine.Spec{
 		ID:    "C11",
 		Title: "Test-smell findings are exactly those evidenced in the test sources",
-		Rule: "X1: (a) full product of evidence sequences of length <=4 (quick) / <=6 (thorough) over 12 evidence tokens (assertTrue, assertEquals(a,b), assertEquals(a,a), println, printf, print, Thread.sleep, helper that asserts, helper that does not, verify, new, non-assert call with identical arguments) in one @Test method; " +
+		Rule: "X1: (a) full product of evidence sequences of length <=4 (quick) / <=6 (thorough) over 15 evidence tokens (assertTrue, assertEquals(a,b), assertEquals(a,a), println, printf, print, Thread.sleep, helper that asserts, helper that does not, verify, new, non-assert call with identical arguments) in one @Test method; " +
 			"(b) deviation-bounded trees of 1..2 classes (location: *Test.java, *Tests.java, src/test/java, production) x 1..3 methods x annotation combination (@Test, @Ignore, both in either order, none, @Before) x bodies x assertion multiplicity 4/5/6 x 12 layouts. " +
 			"Non-trivial = at least one finding is required. Distinct = distinct source trees.",
 		Assumptions: []string{
